@@ -19,8 +19,9 @@
 (*           same again                                                    *)
 (*   monitor: the observable variables of PathRefresh.tla are bound to the *)
 (*     records (allow/keep are accumulated lookup by lookup) and the       *)
-(*     property section is evaluated as is.  obs*: the observation-level   *)
-(*     clauses ObsExact / ObsKeep (reported, never a verdict).             *)
+(*     property section is evaluated as is.  oe / ok: first record that    *)
+(*     fails the observation-level clauses ObsExact / ObsKeep (printed at  *)
+(*     the end of the trace, never a verdict).                             *)
 (*   strict: the specification is stepped by the records.                  *)
 (***************************************************************************)
 EXTENDS Integers, Sequences, FiniteSets, TLC, Json
@@ -40,21 +41,25 @@ VARIABLES now, dstList, phase, pc, wake, cur, nextTick, tickBuf, localIA, paths,
           l,
           aU,     \* dst |-> update that looked dst up last
           aBase,  \* dst |-> allow[dst] before that update
-          kAll    \* dst |-> every lookup of dst in that update failed so far
+          kAll,   \* dst |-> every lookup of dst in that update failed so far
+          oe, ok  \* position of the first record that fails ObsExact / ObsKeep (0: none)
 INSTANCE PathRefresh
 
 Trace == ndJsonDeserialize("trace.ndjson")
 N == Len(Trace)
 tvars == <<now, dstList, phase, pc, wake, cur, nextTick, tickBuf, localIA, paths, nupd, t0, ret,
-           allow, keep, effIA, lastStart, lastEnd, l, aU, aBase, kAll>>
+           allow, keep, effIA, lastStart, lastEnd, l, aU, aBase, kAll, oe, ok>>
 
 Empty == [d \in Dsts |-> {<< >>}]
+pvars == <<now, dstList, phase, pc, wake, cur, nextTick, tickBuf, localIA, paths, nupd, t0, ret,
+           allow, keep, effIA, lastStart, lastEnd>>
 TInit ==
   /\ l = 0
   /\ now = 0 /\ dstList = << >> /\ phase = "init" /\ pc = "start" /\ wake = 0 /\ cur = NoScript
   /\ nextTick = 0 /\ tickBuf = FALSE /\ localIA = 0 /\ paths = << >> /\ nupd = 0 /\ t0 = 0
   /\ ret = NoRet /\ allow = Empty /\ keep = Empty /\ effIA = 0 /\ lastStart = 0 /\ lastEnd = 0
   /\ aU = [d \in Dsts |-> 0] /\ aBase = Empty /\ kAll = [d \in Dsts |-> TRUE]
+  /\ oe = 0 /\ ok = 0
 
 \* ------------------------------------------------------------- monitor
 Same(vs) == UNCHANGED vs
@@ -108,7 +113,11 @@ MonNext ==
             /\ now' = e.t
             /\ ret' = IF e.exact THEN [NoRet EXCEPT !.op = "ia", !.t = e.t, !.ia = e.ia] ELSE NoRet
             /\ UNCHANGED <<dstList, phase, pc, t0, nupd, allow, keep, effIA, lastStart, lastEnd, aU, aBase, kAll>>
+  /\ oe' = IF oe = 0 /\ ~ObsExact' THEN l' ELSE oe
+  /\ ok' = IF ok = 0 /\ ~ObsKeep' THEN l' ELSE ok
 MonSpec == TInit /\ [][MonNext]_tvars
+\* observation level: where ObsExact / ObsKeep fail first (printed, never a verdict)
+ObsReport == l = N => PrintT(<<"OBS", oe, ok>>)
 
 \* the property section of PathRefresh.tla (PathsFromLastRefresh,
 \* LocalIACurrent, NotTooRare, CountBound) is listed in the cfg as is; plus:
@@ -122,7 +131,7 @@ RExact == (l > 0 /\ Trace[l].op \in {"get", "ia"}) => Trace[l].exact
 ScriptOf(e) == [lfail |-> e.lfail, ia |-> IF e.lfail THEN 0 ELSE e.ia, d |-> e.d, per |-> e.per]
 StrNext ==
   \/ /\ l < N /\ l' = l + 1
-     /\ UNCHANGED <<aU, aBase, kAll>>
+     /\ UNCHANGED <<aU, aBase, kAll, oe, ok>>
      /\ LET e == Trace[l'] IN
         CASE e.op = "reset" ->
                /\ now' = 0 /\ dstList' = e.dl
@@ -133,8 +142,8 @@ StrNext ==
                /\ effIA' = 0 /\ lastStart' = 0 /\ lastEnd' = 0
           [] e.op = "upd" -> BeginUpdate(ScriptOf(e))
           [] e.op = "lia" -> IF pc = "busy" THEN \E tf \in BOOLEAN : Wake(tf)
-                             ELSE UNCHANGED vars
-          [] e.op \in {"lk", "started"} -> UNCHANGED vars
+                             ELSE UNCHANGED pvars
+          [] e.op \in {"lk", "started"} -> UNCHANGED pvars
           [] e.op = "adv" -> Advance(e.d)
           [] e.op = "get" -> Get(e.dst)
           [] e.op = "ia" -> GetIA
@@ -145,7 +154,7 @@ SExplained == (l > 0 /\ Trace[l].exact) =>
   LET e == Trace[l] IN
     CASE e.op = "get" -> ret.op = "get" /\ ret.ids = e.ids
       [] e.op = "ia" -> ret.op = "ia" /\ ret.ia = e.ia
-      [] e.op = "upd" -> nupd = e.u /\ e.planned
+      [] e.op = "upd" -> nupd = e.u
       [] e.op = "started" -> phase = "run" /\ t0 = e.t
       [] e.op = "lia" -> pc = "idle" /\ e.fail = cur.lfail /\ e.u = nupd
       [] e.op = "lk" ->
